@@ -134,6 +134,10 @@ def gen_decision(rng):
               'nested': rng.choice([{'k': [1, {'z': None}]}, {}, [1, 'two'],
                                     {'deep': {'deeper': {'v': 'x'}}}]),
               'project_id': 'p-1'}
+    if rng.random() < 0.35:
+        target['auth_token'] = 'tok-123'
+        if isinstance(target['nested'], dict):
+            target['nested']['admin_password'] = 'pw'
     if rng.random() < 0.5:
         target['obj'] = {'__opaque__': 1}
     if rng.random() < 0.2:
@@ -146,7 +150,13 @@ def gen_decision(rng):
     return {'rules': rules, 'pname': pname, 'target': target,
             'creds': creds, 'timeout': timeout,
             'content_type': rng.choice([CT_FORM, CT_JSON]),
-            'tls': tls, 'peers': peers, 'variant': 'base'}
+            'tls': tls, 'peers': peers, 'variant': 'base',
+            # per-decision knobs (swarm style): library debug logging on,
+            # and a transport that does not itself validate TLS files (as
+            # requests_mock or a custom mounted adapter would not), so that
+            # the library's own pre-checks are the only guard
+            'debug_logging': rng.random() < 0.3,
+            'lenient_transport': rng.random() < 0.4}
 
 
 def variants(base, rng):
@@ -285,7 +295,20 @@ def run_decision(d, dg=None, cnt=None):
     fs = simfs.SimFS(random.Random('c16-fs'), t0=1000.0)
     simfs.use(fs)
     peer = simnet.Peer()
+    peer.lenient = bool(d.get('lenient_transport'))
     simnet.use(peer)
+    import logging
+    lg = logging.getLogger('oslo_policy')
+    saved_log = (logging.root.manager.disable, lg.level, lg.propagate)
+    if d.get('debug_logging'):
+        logging.disable(logging.NOTSET)
+        lg.setLevel(logging.DEBUG)
+        lg.propagate = False
+        if not any(isinstance(h, logging.NullHandler) for h in lg.handlers):
+            lg.addHandler(logging.NullHandler())
+        cnt.hit('knob:debug_logging')
+    if peer.lenient:
+        cnt.hit('knob:lenient_transport')
     try:
         fs.mkdir(TLS_DIR)
         conf = cfg.ConfigOpts()
@@ -343,7 +366,8 @@ def run_decision(d, dg=None, cnt=None):
         cnt.hit('requests', len(peer.requests))
         simtime = peer.clock
         if dg is not None:
-            dg.add('decision', d['variant'], got,
+            dg.add('decision', d['variant'], got, d.get('debug_logging'),
+                   d.get('lenient_transport'),
                    [(r['url'], r['timeout'], str(r['verify']), str(r['cert']),
                      r['body'] if isinstance(r['body'], str)
                      else repr(r['body'])) for r in peer.requests])
@@ -428,6 +452,9 @@ def run_decision(d, dg=None, cnt=None):
                 return viol('target-mutated', key=k), simtime
         return None, simtime
     finally:
+        logging.disable(saved_log[0])
+        lg.setLevel(saved_log[1])
+        lg.propagate = saved_log[2]
         simnet.use(None)
         simfs.use(None)
 
